@@ -406,6 +406,10 @@ class Run:
                 'failed_obligations': ['%s: %s (line %s)' % tuple(o) if isinstance(o, tuple) else o for o in self.failed_obligations],
                 'tie_breaks': self.tie_breaks,
                 'note': 'the property is no longer shown to hold; the search found no concrete failing input'})
+            for o in self.failed_obligations[:4]:
+                log('note: unproved: %s' % (('%s: %s (line %s)' % tuple(o)) if isinstance(o, tuple) else str(o)[:300]))
+            for t in self.tie_breaks[:4]:
+                log('note: tie broken: %s' % str(t)[:400])
             log('VIOLATION property=%s replay=%s no-failing-input-found' % (self.prop, p))
             violations += 1
         cov = {
